@@ -545,7 +545,7 @@ class Interp:
             except _Break:
                 raise OutOfReach("break inside a loop verified by the arbitrary-iteration rule")
             if not innermost:
-                raise OutOfReach("nested loop mode: the inner loop was not reached")
+                raise LoopBodyDone()    # this path of the outer iteration never reaches the inner loop
             for name, c in spec.inv(E, frame.locals):
                 ctx.require(f"{tag}:preserve:{name}", c)
             for name, c in spec.step(E, pre, frame.locals, elem, case):
